@@ -46,6 +46,13 @@ func parseRefPricing(text string) refPricing {
 	if m := rePrice.FindStringSubmatch(raw.Price); m != nil {
 		p.Base.SetString(m[1], 10) // scale 0: the decimal part is truncated
 		p.Denom = m[3]
+		if tk, ok := refTokens[m[3]]; ok {
+			// published in the token's main unit: the stored price is the amount in its smallest unit, truncated
+			amt, _ := new(big.Rat).SetString(m[1] + m[2])
+			amt.Mul(amt, new(big.Rat).SetInt(new(big.Int).Exp(big.NewInt(10), big.NewInt(int64(tk.scale)), nil)))
+			p.Base.Quo(amt.Num(), amt.Denom())
+			p.Denom = tk.minUnit
+		}
 	}
 	for _, t := range raw.T {
 		d, _ := new(big.Rat).SetString(t.Discount)
@@ -58,11 +65,33 @@ func parseRefPricing(text string) refPricing {
 	return p
 }
 
+// refTokens: main units the token module of the foreign-denomination scenarios knows (world.go fxTokenKeeper). The
+// repository's own MockTokenKeeper knows none of them, so no stored pricing text names one outside those scenarios.
+var refTokens = map[string]struct {
+	minUnit string
+	scale   int
+}{"kilo": {"stake", 3}, "usd": {"cent", 2}}
+
 func basePriceOf(text string) *big.Int { return parseRefPricing(text).Base }
 
 // Price = max(1, floor(base * dT * dV)).
 func (p refPricing) Price(t time.Time, vol uint64) *big.Int {
+	r, _ := p.PriceAt(t, vol, nil)
+	return r
+}
+
+// PriceAt = max(1, floor(base * dT * dV * rate)): rate = 1 for a price in the base denomination, else what the
+// exchange-rate service says at this height for "<price denomination>-<base denomination>"; ok = false when a rate
+// is needed and there is none.
+func (p refPricing) PriceAt(t time.Time, vol uint64, rate func(priceDenom string) (*big.Rat, bool)) (*big.Int, bool) {
 	x := new(big.Rat).SetInt(p.Base)
+	if rate != nil {
+		r, ok := rate(p.Denom)
+		if !ok {
+			return nil, false
+		}
+		x.Mul(x, r)
+	}
 	for _, w := range p.ByTime {
 		if !t.Before(w.Start) && t.Before(w.End) {
 			x.Mul(x, w.Disc)
@@ -80,7 +109,26 @@ func (p refPricing) Price(t time.Time, vol uint64) *big.Int {
 	}
 	r := new(big.Int).Quo(x.Num(), x.Denom())
 	if r.Cmp(big.NewInt(1)) < 0 {
-		return big.NewInt(1)
+		return big.NewInt(1), true
 	}
-	return r
+	return r, true
+}
+
+// rateFn gives the exchange rates in force at height h under the scenario's host-chain configuration (nil when every
+// price is in the base denomination by construction).
+func rateFn(sc *Scenario, baseDenom string, h int64) func(string) (*big.Rat, bool) {
+	if sc == nil || sc.Rig.FX == nil {
+		return nil
+	}
+	return func(d string) (*big.Rat, bool) {
+		if d == baseDenom {
+			return big.NewRat(1, 1), true
+		}
+		s, ok := sc.Rig.FX.Rate(d+"-"+baseDenom, h)
+		if !ok {
+			return nil, false
+		}
+		r, ok := new(big.Rat).SetString(s)
+		return r, ok
+	}
 }
